@@ -17,8 +17,7 @@ ENTRY = {
         "note": "Trusted: TLC, conc()/abs() of zz_verif_g09_test.go, the mock upstream, the sub-specifications as validated by C01/C03/C04/C06/C08.  Documentation silent => nondeterministic: "
                 "log entries and top_* items whose name / client is ignored now may be missing, client_info.name is the owner at read or at write time, top_queried_domains with or without blocked "
                 "queries, top_clients compared per anonymised address while anonymisation has been on.  No pause, schedules, DHCP, runtime clients, rule lists, safe search / browsing, restart.  "
-                "Where the rewrite table deviates in the ways C06 records as open findings (wildcard ties, other-family shadowing, exception on a canonical name) the line is accepted through "
-                "RewritesCore's deviation set, counted and reported in a NOTE; the model itself is checked against the strict specification.  TLC -coverage is unusable on the nested instances (OOM): vacuity is checked by a probe of every transition out of the initial states.  The enumerated bounded histories are "
-                "model-checked; what is replayed are planned paths over the same universe (exhaustive: false).  Every query of the universe is also replayed from every base configuration of the model.  No findings of its own on the unchanged tree (0f9cbe6); 21 wiring mutations caught.",
+                "TLC -coverage is unusable on the nested instances (OOM): vacuity is checked by a probe of every transition out of the initial states.  The enumerated bounded histories are "
+                "model-checked; what is replayed are planned paths over the same universe (exhaustive: false).  Every query of the universe is also replayed from every base configuration of the model.  No findings of its own on the unchanged tree (efe83b6); 21 wiring mutations caught.",
         "technique": "TLA+ composition model-checked by TLC over all bounded histories; planned pair-covering walks + random histories on the fully wired server; TLC trace validation with fresh-boot reproduction",
     }
